@@ -130,14 +130,13 @@ PROPS = {
             "rule": TRANS_RULE.strip() + " schedules: " + SUB_RULE + " hub-histories: " + HUB_RULE + " race-stress: unsteered concurrent publishers and subscribers on both transports under the Go race detector (supporting search).",
             "trusted": HUB_TRUST + ["yieldify rewriter + cooperative scheduler (harness/cmd/yieldify, harness/overlay/zz_vsched.go.txt) for the schedule-steered stage"],
             "assumptions": ["published update ids are distinct and below 2^40 (the model's range for subscription-event ids); exactly-once is stated for distinct ids",
-                            "theorems about 'exactly the matching updates': retention off; for bounded retention the same clauses are judged on the observed outcomes only"]},
+                            ]},
     "C07": {"binaries": ["verifh", "verifs"],
             "stages": [TRANS_STAGE, SUB_STAGES[1], HUB_STAGE, {"kind": "cases", "name": "subscriber-sequential", "driver": "SUBSEQ", "n": {"quick": 60, "thorough": 600}}],
             "rule": TRANS_RULE.strip() + " schedules: " + SUB_RULE + " hub-histories: " + HUB_RULE + " subscriber-sequential: replays of 999/1000/1001/1500 updates through a real LocalSubscriber (buffer 1000): "
                     "larger than the buffer means cut off with a gap-free prefix.",
             "trusted": HUB_TRUST + ["yieldify rewriter + cooperative scheduler for the schedule-steered stage", "bbolt cursor order and snapshot isolation of the read transaction"],
-            "assumptions": ["theorems: retention off (with bounded retention the replay starts at the oldest retained entry: judged on the observed outcomes)",
-                            "a requested id that is stored only after the registration is treated as unknown"]},
+            "assumptions": ["a requested id that is stored only after the registration, or that retention has already dropped, is treated as unknown"]},
     "C09": {"binaries": ["verifh", "verifs"],
             "stages": [{"kind": "cases", "name": "kill-points", "driver": "CRASH", "binary": "verifs", "n": {"quick": 1, "thorough": 1}}, HUB_STAGE],
             "rule": "kill-points: a publish sequence on a real Bolt transport (sizes 0/2/3, initial history 0-3, 1-2 subscribers; thorough: sizes 0-4 x initial 0-5 x 4 publishes) "
